@@ -621,37 +621,46 @@ def run_p16(chk, repo):
     loops = [L for L in walk_no_nested(f.node) if isinstance(L, ast.For)]
     n = 0
     for L in loops:
-        appended = {c.func.value.id for c in ast.walk(L) if isinstance(c, ast.Call) and isinstance(c.func, ast.Attribute)
-                    and c.func.attr == 'append' and isinstance(c.func.value, ast.Name)}
+        # accumulators: lists appended to in the loop; plain locals (`diag_remove`) or fields of a local record (`diag.remove`)
+        def recv(c):
+            v = c.func.value
+            if isinstance(v, ast.Name) or (isinstance(v, ast.Attribute) and isinstance(v.value, ast.Name)):
+                return unparse(v)
+            return None
+        appended = {recv(c) for c in ast.walk(L) if isinstance(c, ast.Call) and isinstance(c.func, ast.Attribute)
+                    and c.func.attr == 'append'} - {None}
         for I in [x for x in L.body if isinstance(x, ast.If)]:
             adv = [s_ for s_ in I.body if isinstance(s_, ast.AugAssign) and isinstance(s_.op, ast.Add)
                    and isinstance(s_.target, ast.Name)]
             if not adv:
                 continue
-            read = {x.id for s_ in I.body for x in ast.walk(s_) if isinstance(x, ast.Name) and isinstance(x.ctx, ast.Load)}
+            read = {unparse(x) for s_ in I.body for x in ast.walk(s_) if isinstance(x, (ast.Name, ast.Attribute))
+                    and isinstance(getattr(x, 'ctx', None), ast.Load)}
             accs = sorted(a for a in appended & read
-                          if any(isinstance(s_, ast.Assign) and any(a in {y.id for y in ast.walk(t) if isinstance(y, ast.Name)}
-                                                                      for t in s_.targets) for s_ in ast.walk(f.node))
-                          and not any(isinstance(c, ast.Call) and isinstance(c.func, ast.Attribute) and c.func.attr == 'append'
-                                      and isinstance(c.func.value, ast.Name) and c.func.value.id == a for s_ in I.body
-                                      for c in ast.walk(s_)))
+                          if not any(isinstance(c, ast.Call) and isinstance(c.func, ast.Attribute) and c.func.attr == 'append'
+                                     and recv(c) == a for s_ in I.body for c in ast.walk(s_)))
             if not accs:
                 continue
 
             def resets(stmt, a):
-                # a = [] / a = list() / a, b = [], 0 / a.clear()  as a top-level statement of the flush block
+                # a = [] / a = list() / a, b = [], 0 / a.clear() / (for `rec.field`) rec = Fresh() as a top-level statement of the
+                # flush block
+                def empty(v):
+                    return isinstance(v, (ast.List, ast.Call)) and not getattr(v, 'elts', None) and not getattr(v, 'args', None) \
+                        and not getattr(v, 'keywords', None)
                 if isinstance(stmt, ast.Assign):
                     for t in stmt.targets:
-                        if isinstance(t, ast.Name) and t.id == a and isinstance(stmt.value, (ast.List, ast.Call)) \
-                                and not getattr(stmt.value, 'elts', None) and not getattr(stmt.value, 'args', None):
+                        if unparse(t) == a and empty(stmt.value):
                             return True
+                        if '.' in a and isinstance(t, ast.Name) and t.id == a.split('.')[0] and isinstance(stmt.value, ast.Call) \
+                                and empty(stmt.value):
+                            return True           # the record that holds the accumulator is replaced by a fresh one
                         if isinstance(t, ast.Tuple) and isinstance(stmt.value, ast.Tuple) and len(t.elts) == len(stmt.value.elts):
                             for te, ve in zip(t.elts, stmt.value.elts):
-                                if isinstance(te, ast.Name) and te.id == a and isinstance(ve, ast.List) and not ve.elts:
+                                if unparse(te) == a and isinstance(ve, ast.List) and not ve.elts:
                                     return True
                 if isinstance(stmt, ast.Expr) and isinstance(stmt.value, ast.Call) and isinstance(stmt.value.func, ast.Attribute) \
-                        and stmt.value.func.attr == 'clear' and isinstance(stmt.value.func.value, ast.Name) \
-                        and stmt.value.func.value.id == a:
+                        and stmt.value.func.attr == 'clear' and unparse(stmt.value.func.value) == a:
                     return True
                 return False
             for a in accs:
